@@ -758,7 +758,7 @@ func execC05(run *kernel.Run) {
 				}
 			}
 		case c05OverMax:
-			for j, l2 := range []uint32{maxPayloadLen + 1, maxPayloadLen + 1 + uint32(rng.Intn(1<<20)), 0x7FFFFFFF, 0x80000000, 0xFFFFFFFF, uint32(maxPayloadLen+1) + uint32(rng.Uint64()>>35)} {
+			for j, l2 := range []uint32{maxPayloadLen + 1, maxPayloadLen + 1 + uint32(rng.Intn(1<<20)), 2 * maxPayloadLen, 0x7FFFFFFF, 0x80000000, 0xFFFFFFFF, uint32(maxPayloadLen+1) + uint32(rng.Uint64()>>35)} {
 				if l2 <= maxPayloadLen {
 					continue
 				}
@@ -769,6 +769,16 @@ func execC05(run *kernel.Run) {
 					break
 				}
 				run.Probe("length_above_limit_rejected")
+			}
+			// a frame that really carries limit+1 bytes under a valid checksum (ping ignores what follows
+			// its 8 bytes): only the size limit can reject it. Costly (30 MiB hashed twice), hence rare.
+			if mc.cmd == "ping" && rng.Intn(3) == 0 {
+				bigp := make([]byte, maxPayloadLen+1)
+				copy(bigp, mc.payload)
+				d := refFrame(c.magic, "ping", bigp)
+				fire("payload_really_above_limit")
+				c.judge("ping with a real payload of limit+1 bytes", d, rdr(d, -1, 860), mc, false)
+				run.Probe("real_payload_above_limit_rejected")
 			}
 			// exactly at the limit with a short stream: allowed to allocate, must fail on the short payload
 			if rng.Intn(6) == 0 {
